@@ -52,7 +52,7 @@ class Server:
             if 'end' in o:
                 return
 
-    def expand(self, hist, cands):
+    def expand(self, hist, cands, hist_may_die=False):
         """-> (hist record, [candidate records]); a candidate record has status, rc, hooks (list), dump, emit, stderr."""
         msg = [b'EXPAND %d %d\n' % (len(hist), len(cands))] + [ev(*e) for e in hist] + [ev(*e) for e in cands]
         self.p.stdin.write(b''.join(msg)); self.p.stdin.flush()
@@ -71,6 +71,8 @@ class Server:
             elif 'end' in o:
                 end = o
         if h is None or end['end'] != 'ok':
+            if hist_may_die:
+                return {'died': end['end'], 'stderr': end.get('stderr', ''), 'dump': None, 'rcs': [], 'hooks': []}, res
             raise HarnessError('history replay failed in the conf server: %s %s' % (end, hist))
         for r in res:
             if 'Sanitizer' in r.get('stderr', '') and r.get('status') == 'ok':
